@@ -17,7 +17,7 @@ import (
 )
 
 func init() {
-	Register(&Rule{Name: "GOB", Floor: 15, Run: runGob,
+	Register(&Rule{Name: "GOB", Floor: 10, Run: runGob,
 		Doc: "GobDecode reads no byte beyond a length it has checked, validates every decoded attribute and the decoded mantissa before storing them, agrees with GobEncode on the layout, restores precision and mode of a receiver whose precision was not 0, and tests the version before decoding"})
 }
 
